@@ -24,9 +24,12 @@ From Juniper Require Import Common.Base Conc.GoLTS.
 Fixpoint list_eqb {A} (eqb : A -> A -> bool) (a b : list A) : bool :=
   match a, b with
   | [], [] => true
-  | x :: a', y :: b' => eqb x y && list_eqb eqb a' b'
+  | x :: a', y :: b' => if eqb x y then list_eqb eqb a' b' else false   (* [if], not [&&]: lazy under vm_compute *)
   | _, _ => false
   end.
+(* equality of duplicate-free lists up to order *)
+Definition set_eqb (a b : list nat) : bool :=
+  if Nat.eqb (length a) (length b) then forallb (fun x => existsb (Nat.eqb x) b) a else false.
 Definition opt_eqb {A} (eqb : A -> A -> bool) (a b : option A) : bool :=
   match a, b with None, None => true | Some x, Some y => eqb x y | _, _ => false end.
 
@@ -311,10 +314,10 @@ Definition lab_eqb (a b : lab) : bool :=
 
 (* state equality for the matcher: the real components (ghost history does not influence any step) *)
 Definition chan_eqb (a b : chan) : bool :=
-  Nat.eqb (cap a) (cap b) && list_eqb Z.eqb (buf a) (buf b) && Bool.eqb (closed a) (closed b).
+  if Bool.eqb (closed a) (closed b) then list_eqb Z.eqb (buf a) (buf b) else false.
 Definition plog_eqb (a b : plog) : bool :=
   match a, b with PNone, PNone | PClosed, PClosed => true | PSent x, PSent y => Z.eqb x y | _, _ => false end.
-Definition prod_eqb (a b : prod) : bool := list_eqb cmd_eqb (p_q a) (p_q b) && plog_eqb (p_log a) (p_log b).
+Definition prod_eqb (a b : prod) : bool := if plog_eqb (p_log a) (p_log b) then list_eqb cmd_eqb (p_q a) (p_q b) else false.
 Definition cons_eqb (a b : cons) : bool :=
   Nat.eqb (c_permits a) (c_permits b) && opt_eqb Z.eqb (c_hand a) (c_hand b).
 Definition lpc_eqb (a b : lpc) : bool :=
@@ -323,10 +326,17 @@ Definition lpc_eqb (a b : lpc) : bool :=
   | LHand k v j, LHand k' v' j' => Nat.eqb k k' && Z.eqb v v' && Nat.eqb j j'
   | _, _ => false
   end.
+(* The reflect path's case list is compared up to order: two states that differ only in the order of
+   the remaining select cases have the same behaviour up to renaming the arm index in [TLibRecv]. *)
 Definition st_eqb (a b : st) : bool :=
-  list_eqb chan_eqb (chs a) (chs b) && list_eqb prod_eqb (prods a) (prods b)
-  && list_eqb cons_eqb (conss a) (conss b) && list_eqb Bool.eqb (live a) (live b)
-  && Nat.eqb (ndone a) (ndone b) && list_eqb Nat.eqb (cases a) (cases b) && lpc_eqb (pc a) (pc b).
+  if lpc_eqb (pc a) (pc b) then
+  if Nat.eqb (ndone a) (ndone b) then
+  if set_eqb (cases a) (cases b) then
+  if list_eqb Bool.eqb (live a) (live b) then
+  if list_eqb cons_eqb (conss a) (conss b) then
+  if list_eqb prod_eqb (prods a) (prods b) then
+  list_eqb chan_eqb (chs a) (chs b)
+  else false else false else false else false else false else false.
 
 (* ---- initial states ---- *)
 Definition merge_kind (n : nat) : kind :=
@@ -819,14 +829,18 @@ Definition cstate_eqb (a b : cstate) : bool :=
   match a, b with CLive, CLive | CReq, CReq | CDone, CDone => true | _, _ => false end.
 (* real components of a source: remaining script and tokens *)
 Definition src_eqb (a b : src) : bool :=
-  list_eqb Z.eqb (s_items a) (s_items b) && opt_eqb Z.eqb (s_fin a) (s_fin b) && Nat.eqb (s_tokens a) (s_tokens b).
+  if Nat.eqb (s_tokens a) (s_tokens b) then list_eqb Z.eqb (s_items a) (s_items b) else false.
 Definition st_eqb (a b : st) : bool :=
-  list_eqb wpc_eqb (ws a) (ws b) && list_eqb src_eqb (srcs a) (srcs b)
-  && Bool.eqb (merged a) (merged b) && Bool.eqb (ctx a) (ctx b) && Bool.eqb (sdone a) (sdone b)
-  && opt_eqb err_eqb (serr a) (serr b) && Bool.eqb (rdone a) (rdone b)
-  && Nat.eqb (ndone a) (ndone b) && Bool.eqb (once a) (once b) && Nat.eqb (wg a) (wg b)
-  && list_eqb cstate_eqb (kctxs a) (kctxs b) && list_eqb kcmd_eqb (kprog a) (kprog b)
-  && Nat.eqb (kgo a) (kgo b) && kpc_eqb (kpc_ a) (kpc_ b).
+  if kpc_eqb (kpc_ a) (kpc_ b) then
+  if list_eqb wpc_eqb (ws a) (ws b) then
+  if Bool.eqb (merged a) (merged b) && Bool.eqb (ctx a) (ctx b) && Bool.eqb (sdone a) (sdone b)
+     && Bool.eqb (rdone a) (rdone b) && Bool.eqb (once a) (once b) then
+  if Nat.eqb (ndone a) (ndone b) && Nat.eqb (wg a) (wg b) && Nat.eqb (kgo a) (kgo b) then
+  if opt_eqb err_eqb (serr a) (serr b) then
+  if list_eqb src_eqb (srcs a) (srcs b) then
+  if list_eqb cstate_eqb (kctxs a) (kctxs b) then
+  list_eqb kcmd_eqb (kprog a) (kprog b)
+  else false else false else false else false else false else false else false.
 
 (* scenario: one (items, final) script per input, the consumer's program, number of consumer contexts *)
 Definition init (scripts : list (list Z * option Z)) (prog : list kcmd) (nctx : nat) : st :=
